@@ -89,8 +89,9 @@ func jobBundle(w string, j int, pad int) *corecrl.Bundle {
 	}
 	b := &corecrl.Bundle{BaseCRL: makeCRL(jobNumber(w, j), time.Now().Add(240*time.Hour), pad, false)}
 	if hasDelta(jobNumber(w, j)) {
-		// every other bundle comes with a delta CRL of its own (number = base number + 5000)
-		b.DeltaCRL = makeCRL(jobNumber(w, j)+5000, time.Now().Add(240*time.Hour), 1, true)
+		// every other bundle comes with a delta CRL of its own (number = base number + 5000 - or, for some, base number - 50: how
+		// the numbers of the two halves relate is the issuer's business, the cache stores and returns what it was given)
+		b.DeltaCRL = makeCRL(deltaNumber(jobNumber(w, j)), time.Now().Add(240*time.Hour), 1, true)
 	}
 	bundleCache.Store(k, b)
 	return b
@@ -108,7 +109,14 @@ func consistent(base, delta *x509.RevocationList) bool {
 	if !hasDelta(n) {
 		return delta == nil
 	}
-	return delta != nil && delta.Number != nil && delta.Number.Int64() == n+5000
+	return delta != nil && delta.Number != nil && delta.Number.Int64() == deltaNumber(n)
+}
+
+func deltaNumber(n int64) int64 {
+	if w := (n / 100) % 4; w == 2 || w == 3 { // the bundles of every other writer
+		return n - 50
+	}
+	return n + 5000
 }
 
 // near-identical on purpose: u2 differs from u1 by a trailing blank, by letter case or by a trailing slash (chosen per schedule)
